@@ -48,9 +48,10 @@ def main():
     ctx = vlib.Ctx(a.prop, a.tier, seed)
     # whole-library halves: the scheduler-level machine (C01, C02, C04, C12) and the spin lock / sleep
     # queue (every protocol model that treats a spin-locked region as one step and the queue as a list)
-    ATTACH = {"C01": ["machine"], "C03": ["machine"], "C02": ["machine"], "C04": ["machine", "spin", "compose", "sync_steps"], "C12": ["machine"],
-              "C05": ["spin", "compose", "sync_steps"], "C06": ["compose", "sync_steps"], "C07": ["spin", "compose", "sync_steps"],
-              "C08": ["compose"], "C09": ["spin", "compose", "sync_steps"],
+    ATTACH = {"C01": ["machine"], "C03": ["machine"], "C02": ["machine"], "C04": ["machine", "spin", "compose", "sync_steps", "abi_probe"],
+              "C12": ["machine"], "C05": ["spin", "compose", "sync_steps", "abi_probe"], "C06": ["compose", "sync_steps", "abi_probe"],
+              "C07": ["spin", "compose", "sync_steps", "abi_probe"], "C08": ["compose", "abi_probe"],
+              "C09": ["spin", "compose", "sync_steps", "abi_probe"], "C14": ["abi_probe"],
               "C16": ["spin"], "C20": ["machine"]}
     if not a.replay:
         for m in ATTACH.get(a.prop, []):
